@@ -823,6 +823,45 @@ func c24Classes(m map[string]bool) []string {
 
 // ---------------------------------------------------------------- the test
 
+// c24Rec records what the searcher behind the server returned (encoded at once), so that the
+// handler's response can be compared with the model's encoding of exactly that result
+type c24Rec struct {
+	zoekt.Streamer
+	called bool
+	failed bool
+	enc    string
+	want   string // what a client must get back: the result with the named exclusions reset
+	argQ   string // the arguments the handler called the searcher with
+	argO   string
+}
+
+func (s *c24Rec) StreamSearch(ctx context.Context, q query.Q, o *zoekt.SearchOptions, sender zoekt.Sender) error {
+	s.called, s.argQ, s.argO = true, c24EncQ(q), c24Enc(reflect.ValueOf(o))
+	err := s.Streamer.StreamSearch(ctx, q, o, sender)
+	s.failed = err != nil
+	return err
+}
+
+func (s *c24Rec) Search(ctx context.Context, q query.Q, o *zoekt.SearchOptions) (*zoekt.SearchResult, error) {
+	s.argQ, s.argO = c24EncQ(q), c24Enc(reflect.ValueOf(o))
+	r, err := s.Streamer.Search(ctx, q, o)
+	s.called, s.failed, s.enc, s.want = true, err != nil, c24Enc(reflect.ValueOf(r)), ""
+	if r != nil {
+		m := *r
+		m.RepoURLs, m.LineFragments = nil, nil
+		s.want = c24Enc(reflect.ValueOf(&m))
+	}
+	return r, err
+}
+
+func (s *c24Rec) List(ctx context.Context, q query.Q, o *zoekt.ListOptions) (*zoekt.RepoList, error) {
+	s.argQ, s.argO = c24EncQ(q), c24Enc(reflect.ValueOf(o))
+	r, err := s.Streamer.List(ctx, q, o)
+	s.called, s.failed, s.enc = true, err != nil, c24Enc(reflect.ValueOf(r))
+	s.want = s.enc
+	return r, err
+}
+
 type c24Stream struct {
 	grpc.ServerStream
 	ctx context.Context
@@ -1092,6 +1131,11 @@ func TestVerifC24(t *testing.T) {
 		default:
 			obs = "(Ok " + c24EncQ(back) + ")"
 			cls = append(cls, "from-ok")
+			// an accepted message must be a well-formed query tree: it can be printed and converted again
+			// (a tree with a nil child panics in String / QToProto / the searchers)
+			if _, p2, w2 := c24Call(func() any { _ = back.String(); return query.QToProto(back) }); p2 {
+				vfOracleFail("qfrom-illformed:"+c24PanicKey(w2), "QFromProto accepts a wire message but returns an ill-formed query (String/QToProto panic on it): "+w2, map[string]any{"message": fmt.Sprint(p), "value": pbEnc})
+			}
 		}
 		vfCase(fmt.Sprintf("(WConv CQFrom %s %s %s)", pbEnc, obs, invalid), "pq:"+pbEnc, true, cls, map[string]any{"pb": pbEnc, "obs": obs[:5]})
 	}
@@ -1121,7 +1165,8 @@ func TestVerifC24(t *testing.T) {
 		t.Fatal(err)
 	}
 	defer streamer.Close()
-	srv := NewServer(streamer)
+	rec := &c24Rec{Streamer: streamer}
+	srv := NewServer(rec)
 	nH := n - nRec - nQ - nPQ
 	for i := 0; i < nH; i++ {
 		g := &c24Gen{r: r, cls: map[string]bool{}}
@@ -1131,6 +1176,8 @@ func TestVerifC24(t *testing.T) {
 		var cls uint64
 		var what string
 		var msg string
+		var hresp any // the response message of Search / List
+		rec.called, rec.failed, rec.enc = false, false, ""
 		// the first rounds are directed (every run): each handler with every subset of {query, options}
 		// set, and StreamSearch with the inner request unset
 		directed := i < 15
@@ -1157,7 +1204,7 @@ func TestVerifC24(t *testing.T) {
 			reqEnc = c24Enc(reflect.ValueOf(in))
 			msg = fmt.Sprint(in)
 			var herr error
-			_, p, w := c24Call(func() any { _, herr = srv.Search(ctx, in); return nil })
+			_, p, w := c24Call(func() any { hresp, herr = srv.Search(ctx, in); return nil })
 			cls, what = c24ErrClass(herr, p), w
 		case directed && h == 1:
 			in := &webserverv1.StreamSearchRequest{}
@@ -1188,7 +1235,7 @@ func TestVerifC24(t *testing.T) {
 			reqEnc = c24Enc(reflect.ValueOf(in))
 			msg = fmt.Sprint(in)
 			var herr error
-			_, p, w := c24Call(func() any { _, herr = srv.List(ctx, in); return nil })
+			_, p, w := c24Call(func() any { hresp, herr = srv.List(ctx, in); return nil })
 			cls, what = c24ErrClass(herr, p), w
 		case h == 0:
 			req := &webserverv1.SearchRequest{Query: g.pq(0), Opts: g.popts()}
@@ -1202,7 +1249,7 @@ func TestVerifC24(t *testing.T) {
 			reqEnc = c24Enc(reflect.ValueOf(in))
 			msg = fmt.Sprint(in)
 			var herr error
-			_, p, w := c24Call(func() any { _, herr = srv.Search(ctx, in); return nil })
+			_, p, w := c24Call(func() any { hresp, herr = srv.Search(ctx, in); return nil })
 			cls, what = c24ErrClass(herr, p), w
 		case h == 1:
 			req := &webserverv1.StreamSearchRequest{}
@@ -1230,7 +1277,7 @@ func TestVerifC24(t *testing.T) {
 			reqEnc = c24Enc(reflect.ValueOf(in))
 			msg = fmt.Sprint(in)
 			var herr error
-			_, p, w := c24Call(func() any { _, herr = srv.List(ctx, in); return nil })
+			_, p, w := c24Call(func() any { hresp, herr = srv.List(ctx, in); return nil })
 			cls, what = c24ErrClass(herr, p), w
 		}
 		cancel()
@@ -1248,6 +1295,27 @@ func TestVerifC24(t *testing.T) {
 				key += ":request-unset"
 			}
 			vfOracleFail(key, "gRPC handler "+hn+" panics (no recovery interceptor is installed: the server process dies): "+what, map[string]any{"handler": hn, "request": msg, "value": reqEnc})
+		}
+		if rec.called {
+			// decoding: the query and the options the handler handed to the searcher
+			vfCase(fmt.Sprintf("(WHandlerA %d %s %s %s %s)", h, reqEnc, rec.argQ, rec.argO, invalid), "ha:"+hn+reqEnc, true, append(append([]string(nil), classes...), "searcher-args"), map[string]any{"handler": hn, "request": msg})
+		}
+		if h != 1 && cls == 0 && rec.called && !rec.failed && hresp != nil {
+			// decode + call + encode: the response is the model's encoding of what the searcher returned
+			respEnc := c24Enc(reflect.ValueOf(hresp))
+			// oracle: the property at the level of the service - the client decodes what the searcher returned
+			back, bp, bw := c24Call(func() any {
+				if h == 0 {
+					return zoekt.SearchResultFromProto(hresp.(*webserverv1.SearchResponse), nil, nil)
+				}
+				return zoekt.RepoListFromProto(hresp.(*webserverv1.ListResponse))
+			})
+			if bp {
+				vfOracleFail("response-from-panic:"+hn+":"+c24PanicKey(bw), "the client-side FromProto panics on the response of "+hn+": "+bw, map[string]any{"handler": hn, "request": msg, "response": respEnc})
+			} else if got := c24Enc(reflect.ValueOf(back)); got != rec.want {
+				vfOracleFail("response-roundtrip:"+hn, "the response of "+hn+" does not decode to the result the searcher returned", map[string]any{"handler": hn, "request": msg, "result": rec.want, "decoded": got})
+			}
+			vfCase(fmt.Sprintf("(WHandlerR %d %s %s %s %s)", h, reqEnc, rec.enc, respEnc, invalid), "hr:"+hn+reqEnc, true, append(append([]string(nil), classes...), "response"), map[string]any{"handler": hn, "request": msg, "result_len": len(rec.enc), "response_len": len(respEnc)})
 		}
 		vfCase(fmt.Sprintf("(WHandler %d %s %d %s)", h, reqEnc, cls, invalid), "h:"+hn+reqEnc, true, classes, map[string]any{"handler": hn, "request": msg, "class": cls})
 	}
